@@ -5,6 +5,7 @@ import ast
 from typing import Dict, List, Optional, Set, Tuple
 
 from ..absint import Client, Ctx, Interp
+from ..flow import Flow
 from ..model import AnalysisError, Cls, Func, Program, walk_own
 from ..report import Report
 from ..resolve import const_value, dotted, kwarg
@@ -495,11 +496,14 @@ def r5_record_layer(prog, rep: Report):
     from .c12 import writer_method
     w = writer_method(prog, mut)
     rep.fn(w)
-    record_save_check(prog, rep, "C13.R5", prog.cls("BaseMutableRecordFile", FILES_MOD), w, _lines_field(prog, fam))
+    record_save_check(prog, rep, "C13.R5", prog.cls("BaseMutableRecordFile", FILES_MOD), w, _lines_field(prog, fam), fam)
     for lp in [n for n in walk_own(w.node) if isinstance(n, ast.For)]:
         for c in ast.walk(lp):
             if isinstance(c, ast.Call) and src(c.func) == "print" and c.args:
-                okc, whyc = writer_content_ok(c.args[0], src(lp.target))
+                okc, whyc = writer_content_ok(c.args[0], src(lp.target), Flow(w.node))
+                if okc is None:
+                    rep.unrec("C13.R5", w, "saved-line-unmodified", whyc, c.lineno)
+                    continue
                 rep.check("C13.R5", w, "saved-line-unmodified", okc, "record lines are written unmodified (only a trailing '\\n' stripped)",
                           whyc, scenario="a TSV record whose last field is empty or ends in blanks: the saved line loses them and the "
                                          "reopened file fails to load the record", line=c.lineno)
